@@ -416,12 +416,17 @@ class C14(vlib.Driver):
                     for k in range(2 if tier == "quick" else 4):
                         i += 1
                         q = pats[(i * 5 + k) % len(pats)]
-                        cases.append({"fam": "cqn", "obs": "vec", "single": False, "n": n, "q": q, "masks": rows, "eps": eps,
+                        cases.append({"fam": "cqn", "obs": kinds[i % 3], "single": False, "n": n, "q": q, "masks": rows, "eps": eps,
                                       "coin": [0.0, 0.25, 0.75][(i + k) % 3],
                                       "u": [draws_for(m, rng, rng.choice(["adversarial", "zeros", "random"])) for m in rows],
                                       "r": [rng.randrange(n) for _ in rows], "oseed": rng.randrange(10 ** 6)})
+                for k, q in enumerate(pats[:3]):
+                    m = all_masks(n)[(k * 2 + 1) % len(all_masks(n))]
+                    cases.append({"fam": "cqn", "obs": ["vec", "disc", "dict"][k % 3], "single": True, "n": n, "q": q, "masks": [m],
+                                  "eps": eps, "coin": [0.0, 0.25, 0.75][k % 3], "u": [draws_for(m, rng, "adversarial")],
+                                  "r": [rng.randrange(n)], "oseed": rng.randrange(10 ** 6)})
                 for k, q in enumerate(pats[:4]):
-                    cases.append({"fam": "cqn", "obs": "vec", "single": False, "n": n, "q": q, "masks": None, "eps": eps,
+                    cases.append({"fam": "cqn", "obs": kinds[k % 3], "single": False, "n": n, "q": q, "masks": None, "eps": eps,
                                   "coin": [0.0, 0.25, 0.75][k % 3], "u": [[0.0] * n] * 2, "r": [rng.randrange(n) for _ in range(2)],
                                   "oseed": rng.randrange(10 ** 6)})
         # bandits: one context matrix, scalar action
@@ -594,7 +599,7 @@ class C14(vlib.Driver):
         pin(ag.actor, case["q"])
         B = len(case["u"])
         obs = make_obs(kind, B, case["single"], random.Random(case["oseed"]))
-        mask = None if case["masks"] is None else np.array(case["masks"])
+        mask = mask_array(case["masks"], case["single"])
         used = {"uniform": 0, "randint": 0, "coin": 0}
 
         def coin():
@@ -602,13 +607,17 @@ class C14(vlib.Driver):
             return case["coin"]
 
         def uniform(low=0.0, high=1.0, size=None):
-            assert tuple(size) == (B, n), f"unscripted uniform draw of size {size}"
             used["uniform"] += 1
+            if tuple(size) != (B, n):           # the code asks for another batch size: serve it, the shape clause reports it
+                used["size_mismatch"] = list(size)
+                return np.zeros(size)
             return np.array(case["u"], dtype=np.float64)
 
         def randint(low, high=None, size=None, **k):
-            assert (np.prod(size) if size is not None else 1) == B, f"unscripted randint draw of size {size}"
             used["randint"] += 1
+            if (np.prod(size) if size is not None else 1) != B:
+                used["size_mismatch"] = [int(size)] if np.isscalar(size) else list(size)
+                return np.zeros(size, dtype=np.int64)
             return np.array(case["r"])
         with wrap_forward(ag.actor) as rec, patched((random, "random", coin), (np.random, "uniform", uniform),
                                                     (np.random, "randint", randint)):
@@ -861,7 +870,10 @@ class C14(vlib.Driver):
     def coq_term(self, case, obs):
         if "error" in obs:
             return None
-        return getattr(self, "term_" + case["fam"].split("_")[0])(case, obs)
+        try:
+            return getattr(self, "term_" + case["fam"].split("_")[0])(case, obs)
+        except (OverflowError, ValueError):
+            return "false"          # a non-finite number in the observation: no model value can agree with it
 
     def term_dqn(self, case, obs):
         n = case["n"]
@@ -890,6 +902,8 @@ class C14(vlib.Driver):
 
     def term_cqn(self, case, obs):
         B = len(case["u"])
+        if obs["shape"] != [B]:
+            return "false"
         masks = case["masks"] if case["masks"] is not None else [None] * B
         rows = "; ".join(f"mk_cqn {qlist(obs['q'][r])} {qlist(case['u'][r])} {coq_nat(case['r'][r])} {omask(masks[r])}"
                          for r in range(B))
@@ -1024,7 +1038,9 @@ class C14(vlib.Driver):
         a = np.asarray(obs["action"], dtype=np.float32)
         out = []
         for r in range(B):
-            if not sp.contains(a[r]):
+            if not np.all(np.isfinite(a[r])):
+                out.append(Violation("bounds", f"{fam}:non-finite", f"row {r}: action {a[r].tolist()} is not a finite vector (box {box})"))
+            elif not sp.contains(a[r]):
                 bad = [j for j in range(d) if not (sp.low[j] <= a[r][j] <= sp.high[j])]
                 out.append(Violation("bounds", f"{fam}:out-of-bounds", f"row {r}: action {a[r].tolist()} outside {box} (dims {bad})"))
             elif not case["training"]:
@@ -1078,6 +1094,10 @@ class C14(vlib.Driver):
         B = len(case["u"])
         masks = case["masks"] if case["masks"] is not None else [None] * B
         greedy = case["eps"] == 0.0 or case["coin"] >= case["eps"]
+        if obs["shape"] != [B]:
+            comp = ":composite-obs" if case["obs"] in ("dict", "tuple") else ""
+            return [Violation("shape", f"cqn:shape{comp}", f"{B} observation(s) of kind {case['obs']} but the action has shape "
+                              f"{obs['shape']} (eps {case['eps']}, coin {case['coin']}, draws requested {obs['used'].get('size_mismatch')})")]
         return self.discrete_rows("cqn", case["n"], obs["action"], masks, [case["q"]] * B, [greedy] * B,
                                   obs["shape"] == [B] and obs["dtype_kind"] in "iu",
                                   f"(eps {case['eps']}, coin {case['coin']}, draws {case['u']})")
